@@ -736,6 +736,11 @@ func (pr *printer) source() string {
 						}
 						a = append(a, pr.wp(fmt.Sprintf("mkT%d(x.Param(%d))", f.Params[i], i), fmt.Sprintf("mkT%d(x.Poison(%d))", f.Params[i], pr.site)))
 					}
+					if p.PadLines && !p.LineDirs && len(a) >= 2 {
+						// one argument per line; the second one is marked so that the
+						// padding can put it on line 100 (or 1000)
+						return "cff.Params(\n\t" + a[0] + ",\n\t\x00" + strings.Join(a[1:], ",\n\t") + ",\n)"
+					}
 					return "cff.Params(" + strings.Join(a, ", ") + ")"
 				}
 			}
@@ -895,8 +900,17 @@ func (pr *printer) source() string {
 		// straddle a change in the number of digits of the line number
 		cur := strings.Count(b.String(), "\n") + 1
 		target := 98
-		if cur > target {
-			target = 998
+		// when a Params option has two arguments, its second argument lands on
+		// line 100: the two straddle the change from two to three digits
+		joined := ""
+		for _, o := range opts {
+			joined += indent(indent(o + ","))
+		}
+		if k := strings.Index(joined, "\x00"); k >= 0 {
+			target = 100 - 1 - strings.Count(joined[:k], "\n")
+		}
+		for target < cur {
+			target += 900 // ... or from three to four
 		}
 		for ; cur < target; cur++ {
 			b.WriteString("\t// padding\n")
@@ -909,7 +923,7 @@ func (pr *printer) source() string {
 			// from another file, at line numbers that go down
 			fmt.Fprintf(&b, "//line %s.tmpl:%d\n", p.Name, 100000-1000*i)
 		}
-		b.WriteString(indent(indent(o + ",")))
+		b.WriteString(strings.ReplaceAll(indent(indent(o+",")), "\x00", ""))
 	}
 	if p.LineDirs {
 		fmt.Fprintf(&b, "//line p.go:%d\n", 100000)
